@@ -1,6 +1,7 @@
 ------------------------------- MODULE MC_Tlb -------------------------------
 (* M + G for the TL-B interpreter over the transcribed schema (C15-C17):      *)
 (*  TagsOk     constructor tags of every type are prefix-free                 *)
+(*  DecEnc     decode(encode(v)) = v leaf by leaf, for every generated value *)
 (*  G          for every type in Types: every boundary value (one factor at   *)
 (*             a time) with its encoding (cell tree) and its flattened leaves *)
 EXTENDS TlbSchema, Json, TLC, FiniteSets
@@ -14,4 +15,9 @@ Next == UNCHANGED ty
 Export == Emit => \A v \in G!TopValues(ty) :
              ~G!TreeFits(G!Encode(ty, v)) \/ PrintT(ToJson([type |-> ty, val |-> v, enc |-> G!Encode(ty, v), flat |-> G!FlattenV(ty, v)]))
 Count == Cardinality(G!TopValues(ty)) >= 1
+\* M: the decoder (an independent reading of the schema) inverts the encoder on every generated value: every leaf the
+\* flattener lists for the decoded value is the leaf of the original, and the cell is consumed exactly
+DecEnc == \A v \in G!TopValues(ty) :
+             LET e == G!Encode(ty, v) IN
+             G!TreeFits(e) => LET d == G!Decode(ty, e) IN d.ok /\ G!FlattenV(ty, d.v) = G!FlattenV(ty, v)
 =============================================================================
